@@ -16,6 +16,10 @@
          -> 1 :: edge :: num ipeak :: den ipeak :: num maxi :: den maxi  | 0 (empty input)
      3 :: m :: ns :: x (ns integers)          np.roll(x, m)
          -> the rolled list
+     4 :: N :: a (N integers) ++ b (N integers)   wave_shift_corrmax(a, b) on integer signals
+         -> c = correlate(a, b, 'same') (N exact integers, evaluated over Z)
+            ++ [argmax c; integer part of the delay floor(N/2) - argmax]
+            ++ (1 :: edge :: num shift :: den shift  |  0)      (parabolic peak over Q)
 *)
 From Coq Require Import ZArith List Bool QArith Qreduction.
 From IBL.lib Require Import PyInt RunLib.
@@ -78,6 +82,22 @@ Definition run_parab (r : list Z) : list Z :=
   | None => [0]
   end.
 
+Definition zxcorr (a b : list Z) : list Z := xcorr_same Z 0 Z.add Z.mul a b.
+
+Definition run_corrmax (N : Z) (r : list Z) : list Z :=
+  let n := Z.to_nat N in
+  let a := firstn n r in
+  let b := firstn n (skipn n r) in
+  let c := zxcorr a b in
+  c ++ (match argmax Z Z.leb c with
+        | Some i => [Z.of_nat i; int_delay_of_peak n i]
+        | None => [-1; 0]
+        end)
+    ++ (match corrmax_shift qc q0 q1 qadd qmul qopp qinv qleb qeqb (map q_of_int a) (map q_of_int b) with
+        | Some (edge, sh) => [1; enc_bool edge; Qnum (fst sh); Zpos (Qden (fst sh))]
+        | None => [0]
+        end).
+
 Definition run (inp : list Z) : list Z :=
   match inp with
   | 1 :: axis0 :: nr :: nc :: nsh :: r => run_fshift axis0 nr nc nsh r
@@ -85,6 +105,7 @@ Definition run (inp : list Z) : list Z :=
   | 3 :: m :: ns :: r =>
       let x := firstn (Z.to_nat ns) r in
       roll_list Z 0 (Z.to_nat ns) m x
+  | 4 :: N :: r => run_corrmax N r
   | _ => [-999]
   end.
 
